@@ -53,7 +53,7 @@ func lists(alphabet []shareSpec, maxLen int) [][]shareSpec {
 // Run is the C01 check.
 func Run(cfg Config) (int, error) {
 	res := hx.NewResult("C01", cfg.Seed, cfg.Tier)
-	res.Rule = "eon key sets (n,t) with 1<=t<=n; sequences over {valid share of keyper i, share of keyper i for another identity, share under another eon key, repeat of an earlier share}, exhaustive for small n up to length n+2 and sampled above; every sequence is fed to a real EpochKG and to the model (shares described by their discrete logarithms); then two or three identities on one EpochKG with their (valid / other-eon-key) shares interleaved at random, each judged on its own. Distinct by op line."
+	res.Rule = "eon key sets (n,t) with 1<=t<=n; sequences over {valid share of keyper i, share of keyper i for another identity, share under another eon key, repeat of an earlier share}, exhaustive for small n up to length n+2 and sampled above; every sequence is fed to a real EpochKG and to the model (shares described by their discrete logarithms); then one to three identities (unrelated, byte prefixes of each other starting with the empty one, or equal but for a middle byte) on one EpochKG with their (valid / other-eon-key / repeated) shares interleaved at random, each judged on its own, and key sets of 21 to 32 (thorough: 64) keypers. Distinct by op line."
 	exN, maxN, samples := 3, 5, 1500
 	maxLenFor := map[int]int{1: 3, 2: 4, 3: 3}
 	if cfg.Tier == "thorough" {
@@ -259,22 +259,50 @@ func Run(cfg Config) (int, error) {
 		}
 		type icase struct {
 			n, t, ids int
+			shape     int // how the identities relate: 0 unrelated, 1 each a byte prefix of the next (the first one empty), 2 equal but for one middle byte
 			steps     []step
 		}
 		cases := []icase{
 			// the smallest one: B pending while A completes
-			{3, 2, 2, []step{{1, 0, true}, {0, 0, true}, {0, 1, true}, {1, 1, true}}},
-			{3, 2, 2, []step{{0, 0, true}, {1, 2, true}, {0, 2, true}, {1, 0, true}}},
+			{3, 2, 2, 0, []step{{1, 0, true}, {0, 0, true}, {0, 1, true}, {1, 1, true}}},
+			{3, 2, 2, 0, []step{{0, 0, true}, {1, 2, true}, {0, 2, true}, {1, 0, true}}},
+			// B pending while its prefix A completes, then B's first share once more
+			{3, 2, 2, 1, []step{{1, 0, true}, {0, 0, true}, {0, 1, true}, {1, 0, true}}},
 		}
 		for i := 0; i < nInter; i++ {
 			n := 2 + r.Intn(3)
-			c := icase{n: n, t: 1 + r.Intn(n), ids: 2 + r.Intn(2)}
+			c := icase{n: n, t: 1 + r.Intn(n), ids: 2 + r.Intn(2), shape: r.Intn(3)}
 			for k, l := 0, 2+r.Intn(3*n); k < l; k++ {
-				c.steps = append(c.steps, step{r.Intn(c.ids), r.Intn(n), !r.Chance(15)})
+				st := step{r.Intn(c.ids), r.Intn(n), !r.Chance(15)}
+				if len(c.steps) > 0 && r.Chance(20) { // an earlier share once more
+					st = c.steps[r.Intn(len(c.steps))]
+				}
+				c.steps = append(c.steps, st)
 			}
 			cases = append(cases, c)
 		}
-		idOf := func(i int) identitypreimage.IdentityPreimage {
+		// large key sets: any t of n shares, in any order, with a repeat and a share under another key in between
+		big := [][2]int{{21, 21}, {24, 24}, {32, 22}}
+		if cfg.Tier == "thorough" {
+			big = append(big, [2]int{40, 30}, [2]int{64, 43}, [2]int{33, 33}, [2]int{28, 21})
+		}
+		for _, nt := range big {
+			c := icase{n: nt[0], t: nt[1], ids: 1}
+			for _, k := range r.Perm(nt[0])[:nt[1]] {
+				c.steps = append(c.steps, step{0, k, true})
+				if r.Chance(10) {
+					c.steps = append(c.steps, step{0, k, true}, step{0, r.Intn(nt[0]), false})
+				}
+			}
+			cases = append(cases, c)
+		}
+		idOfShape := func(shape, i int) identitypreimage.IdentityPreimage {
+			switch shape {
+			case 1:
+				return identitypreimage.IdentityPreimage([]byte("2\x11verif")[:[]int{0, 1, 2, 7}[i%4]])
+			case 2:
+				return identitypreimage.IdentityPreimage([]byte(fmt.Sprintf("verif-inter%cleaved-zz", 'a'+i)))
+			}
 			return identitypreimage.IdentityPreimage([]byte(fmt.Sprintf("verif-interleaved-%d-zz", i)))
 		}
 		fails := make([]string, len(cases))
@@ -294,6 +322,7 @@ func Run(cfg Config) (int, error) {
 					ks, ks2 := getSet(c.n, c.t)
 					mu.Unlock()
 					kg := epochkg.NewEpochKG(ks.Results[0])
+					idOf := func(i int) identitypreimage.IdentityPreimage { return idOfShape(c.shape, i) }
 					valid := make([]map[int]bool, c.ids)
 					for i := range valid {
 						valid[i] = map[int]bool{}
@@ -325,11 +354,11 @@ func Run(cfg Config) (int, error) {
 						key, have := kg.SecretKeys[id.Hex()]
 						want := len(valid[i]) >= c.t
 						if have != want {
-							fails[ci] = fmt.Sprintf("n=%d t=%d, shares %s: identity %d has key=%v with %d distinct valid senders", c.n, c.t, strings.Join(text, " "), i, have, len(valid[i]))
+							fails[ci] = fmt.Sprintf("n=%d t=%d, identities of shape %d (id0=%x id1=%x), shares %s: identity %d has key=%v with %d distinct valid senders", c.n, c.t, c.shape, idOf(0).Bytes(), idOf(1).Bytes(), strings.Join(text, " "), i, have, len(valid[i]))
 							break
 						}
 						if have && !bytes.Equal(key.Marshal(), (*shcrypto.EpochSecretKey)(eonkeys.Point(ks.Secret(), id.Bytes())).Marshal()) {
-							fails[ci] = fmt.Sprintf("n=%d t=%d, shares %s: the key of identity %d is not its epoch secret key", c.n, c.t, strings.Join(text, " "), i)
+							fails[ci] = fmt.Sprintf("n=%d t=%d, identities of shape %d, shares %s: the key of identity %d is not its epoch secret key", c.n, c.t, c.shape, strings.Join(text, " "), i)
 							break
 						}
 					}
